@@ -2887,7 +2887,31 @@ struct Explorer {
         if (Want("C06")) CheckLimits(op, r, &vs, &d);
         if (Want("C17")) CheckCycle(op, r, w.disk, d, &vs);
         if (Want("C20")) CheckTranscript(op, r, &vs);
-        if (twin_res && !op.tool && (Want("C10") || Want("C11") || Want("C14"))) CheckTwin(op, r, w.disk, d, *twin_res, w.twin, twin_after, &vs);
+        if (twin_res && !op.tool && (Want("C10") || Want("C11") || Want("C14"))) {
+          bool sig = false;
+          for (auto& c : r.cmds) if (c.finished && c.status == 130) sig = true;
+          for (auto& e : r.events) if (e.kind == Event::kInterrupt) sig = true;
+          if (!w.abnormal && !sig) {
+            CheckTwin(op, r, w.disk, d, *twin_res, w.twin, twin_after, &vs);
+          } else if (r.exit_code == 0 && op.cfg.edits_during.empty()) {
+            // After an interrupted build the two projects are legitimately apart (ninja removes more of a command with a
+            // depfile than of one without): no lock-step comparison, but what a later successful build leaves is
+            // still judged -- the recorded dependency must not have been lost with the interrupted command's debris.
+            // (Only where ninja still had every statement's dependency information when this build started: with a
+            // depfile or record gone -- removed with an interrupted command's outputs -- the project is back to a first
+            // build, where a header nobody declared cannot be ordered.)
+            const char* tprop = sc.tags.count("spelling") ? "C14" : sc.tags.count("dyndep") ? "C11" : "C10";
+            bool all_info = true;
+            if (const Variant* cv = VariantOf(sc, w.disk))
+              for (auto& cs : cv->stmts)
+                if (!cs.phony && (!cs.deps.empty() || !cs.depfile.empty()) && !DiscoveredDepsAvailable(cs, w.disk)) all_info = false;
+            if (all_info) {
+              vector<Violation> cvs;
+              CheckContent(op, r, d, &cvs, tprop);
+              for (auto& x : cvs) { x.clause = "final-state:" + x.clause; vs.push_back(x); }
+            }
+          }
+        }
         if (op.expect_error && Want("C11") && !r.hang && !r.crashed && r.exit_code == 0) {
           Violation x; x.prop = "C11"; x.clause = "invalid-dyndep-accepted";
           x.detail = "the dyndep information is invalid for this graph but the build succeeded (started " +
